@@ -19,7 +19,7 @@ from lib import cbool, chex, cnat
 from c09 import ctext, oracle
 
 PROP = 'C10'
-IMPORTS = 'From PV Require Import Codec.Base58 Codec.Domain.'
+IMPORTS = 'From PV Require Import Codec.Base58 Codec.Domain Proofs.Domain_proofs.'
 
 ADDR = ['tz1', 'tz2', 'tz3', 'tz4', 'KT1', 'txr1', 'sr1']
 KEYS = [('edpk', 32), ('sppk', 33), ('p2pk', 33), ('BLpk', 48)]
@@ -58,6 +58,7 @@ Definition typed (x : nat * nat * bool * bytes * bytes) : out :=
   | 9 => oa (unforge_key_hash a)
   | 10 => oc (unforge_address_typed a)
   | 11 => oc (unforge_txr_typed a)
+  | 12 => if domain_rows_ok repo_table && table_ok repo_table then ob nil else Reject
   | _ => Reject
   end%nat.
 (* text level: (sha data, operation, flag, input) *)
@@ -74,6 +75,12 @@ Definition textual (x : (N * bytes * bytes) * (nat * bool * bytes)) : result byt
   | 6 => forge_base58_text sh table43 a
   | 7 => unforge_signature_text sh table43 a
   | 8 => unforge_chain_id_text sh table43 a
+  | 9 => observe_address sh table43 a
+  | 10 => observe_txr sh table43 a
+  | 11 => observe_key_hash sh table43 a
+  | 12 => observe_key sh table43 a
+  | 13 => observe_signature sh table43 a
+  | 14 => observe_chain_id sh table43 a
   | _ => Reject
   end%nat.
 (* both levels behind one entry point: operations >= 100 are the text-level ones *)
@@ -138,10 +145,10 @@ def run(ctx: lib.Ctx) -> None:
     # the rows forge.py relies on (hard-coded prefix lengths 3/4, kinds it names) in the table found in /repo
     from c09 import coq_row
     rows_def = 'Definition repo_table : list row := [\n  ' + ';\n  '.join(coq_row(r) for r in table) + '\n].\n'
-    ans = ctx.coq_eval(IMPORTS, '(domain_rows_ok repo_table, table_ok repo_table)', prelude=rows_def)
-    rows_ok = '= (true, true)' in ans
-    ctx.extra['repo_table_domain_rows_ok'] = rows_ok
+    # evaluated as case number 0 of the comparison below (operation 12 of [typed])
     tcases, tmeta, tmeta_all = [], [], []   # typed level (tmeta_all: every call made, tmeta: those also sent to coqc)
+    tcases.append(('((0%N, nil, nil), (12%nat, 0%nat, false, nil, nil))', '(Ok (0%nat, nil, nil))'))
+    tmeta.append(('domain_rows_ok repo_table && table_ok repo_table', ''))
     xcases, xmeta = [], []   # text level
     reported = 0
     text_share = ctx.n(0.06, 0.25)
@@ -171,8 +178,12 @@ def run(ctx: lib.Ctx) -> None:
         tcases.append((f'((0%N, nil, nil), ({cnat(op)}, {cnat(k)}, {cbool(fl)}, {chex(a)}, {(chex(e) if e else 'nil')}))', expect))
         tmeta.append(what)
 
+    xcount = {}
+
     def textual(op, fl, a_lit, body, ok, val, what):
-        if sel.random() < text_share:
+        # a sample, but at least two cases of every kind of call
+        if sel.random() < text_share or xcount.get(what[0], 0) < 2:
+            xcount[what[0]] = xcount.get(what[0], 0) + 1
             out = f'(Ok (0%nat, {ctext(val.encode()) if isinstance(val, str) else chex(val)}, nil))' if ok else 'Reject'
             xcases.append((f'({oracle(body)}, ({cnat(100 + op)}, 0%nat, {cbool(fl)}, {a_lit}, nil))', out))
             xmeta.append(what)
@@ -239,6 +250,7 @@ def run(ctx: lib.Ctx) -> None:
                 back = w.value if ok2 else None
                 op = 11 if kind == 'txr1' else 10
                 typed(op, 0, False, d, b'', addr_out(ok2, back), (f'{T.__name__}.from_micheline_value', d.hex()))
+                textual(10 if kind == 'txr1' else 9, False, ctext(value.encode()), body_of(kind, h), ok2, back, (f'{T.__name__} observe', value))
                 ok3, u = lib.call(F.unforge_contract, d)
                 typed(3, 0, False, d, b'', addr_out(ok3, u), ('unforge_contract', d.hex()))
                 textual(3, False, chex(d), body_of(kind, h), ok3, u, ('unforge_contract', d.hex()))
@@ -259,6 +271,7 @@ def run(ctx: lib.Ctx) -> None:
                     d = bytes.fromhex(m['bytes'])
                     typed(0, ki, True, h, b'', out_bytes(True, d), ('KeyHashType.to_micheline_value', text))
                     typed(9, 0, False, d, b'', addr_out(ok2, w.value if ok2 else None, False), ('KeyHashType.from_micheline_value', d.hex()))
+                textual(11, False, ctext(text.encode()), body_of(kind, h), ok and ok1 and ok2, w.value if ok2 else None, ('KeyHashType observe', text))
                 if not (ok and ok1 and ok2) or w.value != text:
                     report('a key hash does not survive the optimized form' + (' (kind confusion)' if ok2 and w.value[:3] != text[:3] else ''),
                            {'value': text, 'optimized': m, 'read_back': w.value if ok2 else repr(w),
@@ -281,6 +294,7 @@ def run(ctx: lib.Ctx) -> None:
                 ok4, back = lib.call(F.unforge_public_key, d)
                 typed(5, 0, False, d, b'', out_val(ki, parse_text(table, back)[1]) if ok4 else 'Reject', ('unforge_public_key', d.hex()))
                 textual(5, False, chex(d), body_of(kind, p), ok4, back, ('unforge_public_key', d.hex()))
+            textual(12, False, ctext(text.encode()), body_of(kind, p), ok1 and ok2 and ok3, w.value if ok3 else None, ('KeyType observe', text))
             if not (ok and ok1 and ok2 and ok3) or w.value != text:
                 report(f'a {kind} public key does not survive the optimized form',
                        {'value': text, 'optimized': m, 'read_back': w.value if ok3 else repr(w),
@@ -301,6 +315,8 @@ def run(ctx: lib.Ctx) -> None:
                 bk = parse_text(table, back) if ok4 else None
                 typed(6, 0, False, d, b'', out_val([s for s, _ in SIGS].index(bk[0]), bk[1]) if ok4 else 'Reject', ('unforge_signature', d.hex()))
                 textual(7, False, chex(d), body_of('BLsig' if n == 96 else 'sig', p), ok4, back, ('unforge_signature', d.hex()))
+            if kind in ('sig', 'BLsig'):
+                textual(13, False, ctext(text.encode()), body_of(kind, p), ok1 and ok2 and ok3, w.value if ok3 else None, ('SignatureType observe', text))
             if not (ok1 and ok2 and ok3) or bytes.fromhex(m['bytes']) != p or not (v == w) or E.base58_decode(w.value.encode()) != p:
                 report(f'a {n}-byte signature ({kind} notation) does not survive the optimized form',
                        {'value': text, 'optimized': m, 'read_back': w.value if ok3 else repr(w),
@@ -317,6 +333,7 @@ def run(ctx: lib.Ctx) -> None:
             ok4, back = lib.call(F.unforge_chain_id, d)
             typed(7, 0, False, d, b'', out_bytes(True, parse_text(table, back)[1]) if ok4 else 'Reject', ('unforge_chain_id', d.hex()))
             textual(8, False, chex(d), body_of('Net', p), ok4, back, ('unforge_chain_id', d.hex()))
+        textual(14, False, ctext(text.encode()), body_of('Net', p), ok1 and ok2 and ok3, w.value if ok3 else None, ('ChainIdType observe', text))
         if not (ok1 and ok2 and ok3) or w.value != text or bytes.fromhex(m['bytes']) != p:
             report('a chain id does not survive the optimized form', {'value': text, 'optimized': m, 'read_back': w.value if ok3 else repr(w)})
 
@@ -426,9 +443,17 @@ def run(ctx: lib.Ctx) -> None:
     # ---------------------------------------------------------------- comparison inside coqc
     ctx.extra['cases_typed'] = len(tcases)
     ctx.extra['cases_text'] = len(xcases)
+    hist = {}
+    for m in xmeta:
+        hist[m[0]] = hist.get(m[0], 0) + 1
+    ctx.extra['text_level_calls'] = hist
     IN_TY = '(N * bytes * bytes) * (nat * nat * bool * bytes * bytes)'
     allc = tcases + xcases
-    bad = ctx.coq_mismatches('dom', IMPORTS, 'both', 'out_eqb', IN_TY, 'out', allc, shard=ctx.n(650, 2000), prelude=PRELUDE)
+    bad = ctx.coq_mismatches('dom', IMPORTS, 'both', 'out_eqb', IN_TY, 'out', allc, shard=ctx.n(650, 2000), prelude=rows_def + PRELUDE)
+    rows_ok = 0 not in bad
+    ans = 'case 0: domain_rows_ok repo_table && table_ok repo_table = ' + str(rows_ok).lower()
+    ctx.extra['repo_table_domain_rows_ok'] = rows_ok
+    bad = [i for i in bad if i != 0]
     bad_t = [i for i in bad if i < len(tcases)]
     bad_x = [i - len(tcases) for i in bad if i >= len(tcases)]
     ctx.extra['disagreements'] = {'typed': len(bad_t), 'text': len(bad_x)}
@@ -439,10 +464,10 @@ def run(ctx: lib.Ctx) -> None:
         if bad_t:
             i = bad_t[0]
             rep['typed_case'] = {'call': list(tmeta[i]), 'case': tcases[i][0], 'implementation': tcases[i][1],
-                                 'model': ctx.coq_eval(IMPORTS, f'both {tcases[i][0]}', prelude=PRELUDE)}
+                                 'model': ctx.coq_eval(IMPORTS, f'both {tcases[i][0]}', prelude=rows_def + PRELUDE)}
             rep['typed_all'] = [list(tmeta[j])[:2] for j in bad_t[:30]]
         if bad_x:
             i = bad_x[0]
             rep['text_case'] = {'call': list(xmeta[i]), 'implementation': xcases[i][1],
-                                'model': ctx.coq_eval(IMPORTS, f'both {xcases[i][0]}', prelude=PRELUDE)}
+                                'model': ctx.coq_eval(IMPORTS, f'both {xcases[i][0]}', prelude=rows_def + PRELUDE)}
         report('implementation no longer corresponds to the model the theorems are about', rep, found=False)
